@@ -128,6 +128,7 @@ fn main() {
                     "literals" => record::gen_literals(&mut rec, &mut rng, n),
                     "macros" => record::gen_macros(&mut rec, &mut rng, n),
                     "bigctx" => record::gen_bigctx(&mut rec, &mut rng, n),
+                    "floatprogs" => record::gen_floatprogs(&mut rec, &mut rng, n),
                     other => {
                         eprintln!("unknown generator {other}");
                         std::process::exit(2);
